@@ -179,6 +179,29 @@ R6 = {
  "C20": "location found only by meeting ref; transcript regions oriented Forward",
 }
 
+# Clauses added after the seventh round (DESIGN.md §10.6).
+R7 = {
+ "C01": "constant format strings; exported reader/writer settings consulted per call",
+ "C02": "constant format strings; exported reader/writer settings consulted per call",
+ "C03": "fragment joining of the FASTA/FASTQ readers",
+ "C05": "strict converging loops in RevComp; positions never passed as raw subscripts; sibling agreement of argument arithmetic",
+ "C06": "Append returns the receiver's extension; operations install their own result; sibling agreement of argument arithmetic",
+ "C07": "flag tests reached on every row; run counter advances with every row; positions never passed as raw subscripts",
+ "C08": "ties kept among candidate scores; last-column maximum starts from the identity",
+ "C09": "traceback score starts from zero; last block emission in all aligners",
+ "C10": "per-k-mer verdict of Check; k-mer space enumerated from word 0",
+ "C11": "writer takes its buffer before any return",
+ "C12": "writer takes its buffer before any return",
+ "C13": "CleanUp always removes the directory; Pull errors propagated by PALS",
+ "C14": "no success before the scan",
+ "C15": "hit collector started before the kernel; Pull errors propagated; per-strand self-comparison flag",
+ "C16": "tree looked up by location; every image located",
+ "C17": "constructors do not write through arguments; complement table built by the constructor",
+ "C18": "exact subscript ranges of fixed-size tables in seq/quality",
+ "C19": "recovered failure delivered through a named result; settled flag decides fulfilment",
+ "C20": "SetExons stores the builder's result",
+}
+
 NOT_APPLICABLE = {
 }
 
@@ -205,6 +228,10 @@ def main():
                 tech = tech + "; " + R6[pid]
                 text = text + " Round 6 (DESIGN §10.5) adds: " + R6[pid] + "."
                 ref = ref + ", §10.5"
+            if pid in R7:
+                tech = tech + "; " + R7[pid]
+                text = text + " Round 7 (DESIGN §10.6) adds: " + R7[pid] + "."
+                ref = ref + ", §10.6"
             checks.append({
                 "property_id": pid,
                 "quick_cmd": "./check %s quick" % pid,
